@@ -17,7 +17,8 @@ Triples == <<
   << <<0, 0, 0>>, <<100, 0, 0>>, <<50, 1, 0>> >>,                              \* nearly collinear
   << <<-5, -5, -5>>, <<20, 0, 3>>, <<0, 30, -4>> >>,
   << <<0, 0, 0>>, <<1, 1, 1>>, <<3, 3, 3>> >>,                                 \* collinear
-  << <<2, 0, 0>>, <<2, 0, 0>>, <<0, 5, 0>> >>                                  \* two coincident points
+  << <<2, 0, 0>>, <<2, 0, 0>>, <<0, 5, 0>> >>,                                 \* two coincident points
+  << <<0, 0, 0>>, <<4000, 0, 0>>, <<2000, 1, 0>> >>                            \* a needle: 1 unit off a 4000 unit edge
 >>
 Shifts == << <<0, 0, 0>>, <<100, -200, 50>>, <<-3, 7, 11>> >>
 
@@ -37,7 +38,8 @@ Collinear(t) == Cross(VecSub(t[2], t[1]), VecSub(t[3], t[1])) = <<0, 0, 0>>
 
 \* model sanity: a rigid motion preserves squared distances (scaled by 25^n)
 Dist2(u, v) == Dot(VecSub(u, v), VecSub(u, v))
-Rigid == stage = 2 =>
+\* (not for the needle: its squared lengths times 25^n leave TLC's 32-bit integers)
+Rigid == (stage = 2 /\ tri # 8) =>
   LET m == Motion  t == Triples[tri] IN
   \A i, j \in 1..3 : Dist2(Image(m, t[i]), Image(m, t[j])) = Pow5(m.n) * Pow5(m.n) * Dist2(t[i], t[j])
 
